@@ -232,6 +232,9 @@ def one(ctx, i):
         if b.captures:
             # the history before the reset is judged too (its runs were captured)
             pass
+    if getattr(b, 'modified_run_arguments', None):
+        ctx.violation('C11:run-argument-modified-by-the-run', {'arguments': b.modified_run_arguments[:2], 'info': info}, case)
+        return
     ok = check_axis(ctx, spec, info, b, runs, case)
     if ok and info['e'] > 0 and info['m'] % 10:
         ctx.seen('nontrivial', f"{info['m']}e-{info['e']}x{info['n']}|{d0['dt']['u']}{d0['T']['u']}|{info['form']}|{info['kind']}")
